@@ -26,6 +26,14 @@ def stream(kind, n):
         a = ((t * 7919) % 13) / 13.0
         b = ((t * 104729) % 17) / 17.0 - 0.5
         cat = (1.0, 2.0, 3.0)[(t * 31 + (t // 5)) % 3]
+        if kind == 'sharp':
+            # a sharp concept drift in the relation between two numerical features: for a while the adaptive
+            # regression trees carry alternate sub-trees next to their main branches
+            b = ((t * 104729) % 101) / 101.0
+            a = ((3.0 if b > 0.5 else 0.0) if t < (n * 4) // 7 else (0.0 if b > 0.5 else 3.0) + 2.0) \
+                + 0.1 * (((t * 31337) % 19) / 19.0 - 0.5)
+            out.append(({'n1': a, 'n2': b, 'c1': cat}, a + b))
+            continue
         if kind == 'drift' and t > n // 2:
             y = -3.0 * a + b + (1.0 if cat == 1.0 else 0.0)
         else:
@@ -255,13 +263,13 @@ def cells(tier, vseed):
     i = 0
     for cfg in cfgs:
         for pi, p in enumerate(pairs):
-            for si, sk in enumerate(('plain', 'drift')):
+            for si, sk in enumerate(('plain', 'drift') + (('sharp',) if cfg['storage'] == 'tree' and pi == 0 else ())):
                 if tier == 'thorough':
                     pres = pre
                 else:
                     pres = [pre[(i + pi + si) % 4], 'none'] if pi == 0 else [pre[(i + pi + si) % 4]]
                 for ph in dict.fromkeys(pres):
-                    n_obs = 70 if cfg['storage'] == 'tree' else 30
+                    n_obs = (70 if sk != 'sharp' else 350) if cfg['storage'] == 'tree' else 30
                     out.append((cfg, p, ph, sk, n_obs))
         i += 1
     return out
